@@ -51,8 +51,16 @@ class VecMod(roundtrip.RTMod):
                             out.extend(go(i + 1, keep + [a0[1][i]] if r[1] else keep, s3))
                     return out
                 return go(0, [], st)
-            if c.endswith("Deref>::deref") or c.endswith("DerefMut>::deref_mut"):
+            if c.endswith("Deref>::deref") or c.endswith("DerefMut>::deref_mut") or c in ("alloc::vec::Vec::<T, A>::as_slice", "alloc::vec::Vec::<T, A>::as_mut_slice"):
                 return [(OK, args[0], st)]
+            if c in ("core::slice::<impl [T]>::first", "core::slice::<impl [T]>::last"):
+                if not a0[1]:
+                    return [(OK, none(), st)]
+                return [(OK, some(("ref", place + (str(0 if c.endswith("first") else len(a0[1]) - 1),))), st)]
+            if c in ("core::slice::<impl [T]>::split_first",):
+                if not a0[1]:
+                    return [(OK, none(), st)]
+                return [(OK, some(("tuple", (("ref", place + ("0",)), ("tuple", tuple(a0[1][1:]))))), st)]
         if a0 is not None and a0[0] == "tuple" and (c.endswith("IntoIterator>::into_iter") or c == "core::iter::traits::collect::IntoIterator::into_iter"):
             return [(OK, ("abs", "siter", a0[1], 0), st)]
         if a0 is not None and a0[0] == "abs" and a0[1] == "siter" and c == "core::iter::traits::iterator::Iterator::enumerate":
